@@ -527,6 +527,23 @@ def check_cfg(run, lst, ob):
                 missing.discard(m)
                 ctr["edge_follows_displaced_label"] += 1
                 break
+    # return sites of calls whose target label is displaced (C02's subject)
+    # follow the label as well
+    displaced_sites = set()
+    for (si, t, site, ctgt) in calls:
+        got = ob.symbols.get(t.target)
+        if site is None or not got or len(got) != 1 or ctgt[0] != "pos":
+            continue
+        g = got[0]
+        if not (g[0] == "pos" and (g[1], g[2]) == (ctgt[1], ctgt[2])):
+            displaced_sites.add(("pos", si, site))
+    for m in list(missing):
+        if m[2] == "return" and m[5] in displaced_sites:
+            missing.discard(m)
+            ctr["edge_follows_displaced_label"] += 1
+            for e in list(extra):
+                if e[:3] == m[:3] and e[5][0] in ("anon", "proxydel"):
+                    extra.discard(e)
     ctr["edges_compared"] += len(exp | obs)
     seq_index = {}
     for si in range(len(lst.secs)):
@@ -600,6 +617,10 @@ def check_cfg(run, lst, ob):
                 return None    # flip side of the extra return edge
             return f"missing-unknown-proxy:{origin}-ret"
         # extra
+        entries = [b for f in case.get("funcs", []) if f["name"] == tok.fn
+                   for b in f["entries"]]
+        if tgt[0] != "anon" and any(b in lst.proxy_deleted for b in entries):
+            return "stale:function-entry-proxied"
         if tgt[0] in ("anon", "proxydel") and \
                 (e[0], e[1]) in missing_ret_src:
             return None    # flip side of a missing site edge
